@@ -221,3 +221,16 @@ case("C20", "loss-prev-stale", "VIOLATION", [(DS, "\t\t\tloss_prev = best_loss\n
 case("C20", "best-not-reset", "VIOLATION", [(DS, "\t\ttic = time.time()\n\t\tbest_improvement, best_motif_idx, best_pos = 0, -1, -1", "\t\ttic = time.time()"), (DS, "\ttic = time.time()\n\titeration = 0", "\ttic = time.time()\n\titeration = 0\n\tbest_improvement, best_motif_idx, best_pos = 0, -1, -1")], "R-ACCEPT")
 case("C20", "apply-wrong-pos", "VIOLATION", [(DS, "X = substitute(X, motifs[best_motif_idx], start=best_pos, ", "X = substitute(X, motifs[best_motif_idx], start=pos, ")], "R-ACCEPT")
 case("C20", "maxiter-after-search", "VIOLATION", [(DS, "\t\tif iteration == max_iter:\n\t\t\tbreak\n\n\t\ttic = time.time()", "\t\ttic = time.time()"), (DS, "\t\tif best_improvement <= tol:\n\t\t\tbreak", "\t\tif best_improvement <= tol:\n\t\t\tbreak\n\t\tif iteration == max_iter:\n\t\t\tbreak")], "R-ACCEPT")
+
+# ------------------------------------------------------------------ C16
+IOF = "tangermeme/io.py"
+prefix("C16", "D11-prefix-meme-commit", IOF, "069479e", "R-FLUSH", "io.read_meme")
+case("C16", "interleave-key-before-filter", "VIOLATION", [(IOF, "\t\tif chroms is not None:\n\t\t\tdf = df[numpy.isin(df['chrom'], chroms)]\n\n\t\tdf['idx'] = numpy.arange(len(df)) * len(loci) + i", "\t\tdf['idx'] = numpy.arange(len(df)) * len(loci) + i\n\t\tif chroms is not None:\n\t\t\tdf = df[numpy.isin(df['chrom'], chroms)]\n")], "INTERLEAVE")
+case("C16", "interleave-no-sort", "VIOLATION", [(IOF, "loci = loci.set_index(\"idx\").sort_index().reset_index(drop=True)", "loci = loci.drop(columns=\"idx\").reset_index(drop=True)")], "INTERLEAVE")
+case("C16", "edge-end-gt", "VIOLATION", [(IOF, "if start < 0 or end >= chrom_length: ", "if start < 0 or end > chrom_length: ")], "EDGE")
+case("C16", "out-window-odd-dropped", "VIOLATION", [(IOF, "end = mid + out_width + max_jitter + (out_window % 2)", "end = mid + out_width + max_jitter")], "WINDOW")
+case("C16", "in-window-shifted", "VIOLATION", [(IOF, "start = mid - in_width - max_jitter\n", "start = mid - in_width - max_jitter + 1\n")], "WINDOW")
+case("C16", "edge-uses-in-only", "VIOLATION", [(IOF, "end = mid + max(out_width, in_width) + max_jitter", "end = mid + in_width + max_jitter")], None, "io.extract_loci")
+case("C16", "continue-after-signal-append", "VIOLATION", [(IOF, "\t\t\tsignals_.append(signal)\n", "\t\t\tsignals_.append(signal)\n\t\t\tif signal[target_idx].sum() == 0:\n\t\t\t\tcontinue\n")], "ALIGN")
+case("C16", "window-equiv-spelling", "HOLDS", [(IOF, "end = mid + in_width + max_jitter + (in_window % 2)", "end = start + in_window + 2 * max_jitter")])
+case("C16", "meme-commit-ge", "HOLDS", [(IOF, "\t\t\t\tif i == width:\n\t\t\t\t\tmotifs[motif]", "\t\t\t\tif i >= width:\n\t\t\t\t\tmotifs[motif]")])
